@@ -7,7 +7,9 @@ import (
 	"wzverif/internal/ops"
 )
 
-func img(name string, pat int) *gen.Img { return &gen.Img{Fmt: "png", W: 3, H: 2, Pat: pat, Name: name} }
+func img(name string, pat int) *gen.Img {
+	return &gen.Img{Fmt: "png", W: 3, H: 2, Pat: pat, Name: name}
+}
 
 // fixedCases are hand-written histories in which every document uses the same per-document machinery
 // (images, headers, custom styles, properties, page settings, templates, markdown).
